@@ -7,9 +7,10 @@ CONSTANTS
   QSize = 2
   MaxNow = 6
   KF_C10_LostHandoff = TRUE
+  TtlPeek = FALSE
   Driver = TRUE
   KeepHist = TRUE
 SPECIFICATION Spec
-VIEW View
+VIEW ViewD
 INVARIANTS CxPOk PerWindow SizeBound
 CHECK_DEADLOCK FALSE
